@@ -5,6 +5,7 @@ pub mod c04;
 pub mod c07;
 pub mod c08;
 pub mod c09;
+pub mod c10;
 pub mod c11;
 pub mod c12;
 pub mod c13;
@@ -33,6 +34,7 @@ pub fn all() -> Vec<Prop> {
         Prop { id: "C07", level: "exploration", run: c07::run, replay: c07::replay },
         Prop { id: "C08", level: "exploration", run: c08::run, replay: c08::replay },
         Prop { id: "C09", level: "exploration", run: c09::run, replay: c09::replay },
+        Prop { id: "C10", level: "exploration", run: c10::run, replay: c10::replay },
         Prop { id: "C11", level: "exploration", run: c11::run, replay: c11::replay },
         Prop { id: "C12", level: "fault_enumeration", run: c12::run, replay: c12::replay },
         Prop { id: "C13", level: "exploration", run: c13::run, replay: c13::replay },
